@@ -42,6 +42,16 @@ def prune_cache(keep=8):
             for _, p in sorted(lst, reverse=True)[keep:]:
                 shutil.rmtree(p, ignore_errors=True)
 
+import contextlib, fcntl
+@contextlib.contextmanager
+def locked(name):
+    """exclusive lock shared by concurrently running checks (builds and family runs write into shared cache directories)"""
+    os.makedirs(CACHE + "/locks", exist_ok=True)
+    with open(f"{CACHE}/locks/{name.replace('/', '_')}.lock", "w") as f:
+        fcntl.flock(f, fcntl.LOCK_EX)
+        try: yield
+        finally: fcntl.flock(f, fcntl.LOCK_UN)
+
 class Broken(Exception):
     """the machinery (not the property) is broken: build failure of our own tools etc."""
 
@@ -50,7 +60,7 @@ def source_facts():
     rc, out, _ = sh([sys.executable, VERIF + "/tools/source_facts.py", HEADER, COQ + "/Model/SourceFacts.v"])
     return rc == 0, out.strip()
 
-def coq_make(targets=None):
+def _coq_make(targets=None):
     """full .vo build (never -vos). Returns (ok, log)."""
     if not os.path.exists(COQ + "/Makefile"):
         rc, out, _ = sh("coq_makefile -f _CoqProject -o Makefile", cwd=COQ)
@@ -83,12 +93,12 @@ def props_check(pid):
     return ok, out, thms
 
 # ---------------------------------------------------------------- extraction + OCaml drivers
-def ensure_model_bins():
+def _ensure_model_bins():
     key = sha(COQ + "/Model", COQ + "/Valid", COQ + "/Extract", VERIF + "/harness/ml")
     d = f"{CACHE}/extract-{key}"
     if os.path.exists(d + "/ok"): return d
     os.makedirs(d, exist_ok=True)
-    ok_all, log_all = coq_make()          # extraction needs the compiled model and validators, whatever property is being checked
+    ok_all, log_all = _coq_make()          # extraction needs the compiled model and validators, whatever property is being checked
     rc, out, _ = sh(f"coqc -Q {COQ} Ctpg {COQ}/Extract/Extract.v", cwd=d, timeout=600)
     if rc: raise Broken("extraction failed: " + out[-2000:])
     for f in os.listdir(VERIF + "/harness/ml"): shutil.copy(VERIF + "/harness/ml/" + f, d)
@@ -99,7 +109,7 @@ def ensure_model_bins():
     return d
 
 # ---------------------------------------------------------------- harness builds against /repo's current tree
-def ensure_h1():
+def _ensure_h1():
     key = sha(HEADER, VERIF + "/harness/h1.cpp", VERIF + "/harness/gen_carriers.py", VERIF + "/harness/checked_buffer.hpp")
     d = f"{CACHE}/h1-{key}"
     if os.path.exists(d + "/ok"): return d, None
@@ -111,7 +121,7 @@ def ensure_h1():
     open(d + "/ok", "w").write("ok")
     return d, None
 
-def ensure_h2():
+def _ensure_h2():
     key = sha(HEADER, VERIF + "/harness/h2.cpp")
     d = f"{CACHE}/h2-{key}"
     if os.path.exists(d + "/ok"): return d, None
@@ -184,7 +194,7 @@ def parse_h2_case(lines):
     return c
 
 # ---------------------------------------------------------------- family runs (cached per header+seed+tier)
-def run_family(name, gen_cmd, real_bin, model_bin, key, extra_model_args="", second_model_on_real=False):
+def _run_family(name, gen_cmd, real_bin, model_bin, key, extra_model_args="", second_model_on_real=False):
     d = f"{CACHE}/runs/{name}-{key}"
     if os.path.exists(d + "/done"):
         return d
@@ -241,3 +251,16 @@ def write_evidence(pid, tier, seed, wall, coverage, assumptions, violations):
 
 def known_findings():
     return json.load(open(VERIF + "/known_findings.json"))
+
+
+# ---------------------------------------------------------------- the same entry points, serialised across concurrently running checks
+def coq_make(targets=None):
+    with locked("coq"): return _coq_make(targets)
+def ensure_model_bins():
+    with locked("coq"): return _ensure_model_bins()
+def ensure_h1():
+    with locked("h1"): return _ensure_h1()
+def ensure_h2():
+    with locked("h2"): return _ensure_h2()
+def run_family(name, gen_cmd, real_bin, model_bin, key, extra_model_args="", second_model_on_real=False):
+    with locked(f"run-{name}-{key}"): return _run_family(name, gen_cmd, real_bin, model_bin, key, extra_model_args, second_model_on_real)
